@@ -14,13 +14,14 @@ import (
 // C02 — every operation sequence follows the bucket/object model (seqmc).
 
 type c02Op struct {
-	kind   string // create|delbucket|put|delete|multi|copy
-	b, k   string
-	b2, k2 string
-	body   string
-	meta   bool
-	keys   []string
-	quiet  bool
+	kind              string // create|delbucket|put|delete|multi|copy
+	b, k              string
+	b2, k2            string
+	body              string
+	meta              bool
+	keys              []string
+	quiet             bool
+	nullVer, emptyVer bool // delete: with ?versionId=null / ?versionId=
 }
 
 func (o c02Op) String() string {
@@ -36,6 +37,12 @@ func (o c02Op) String() string {
 		}
 		return fmt.Sprintf("put %s/%s %q%s", o.b, o.k, o.body, m)
 	case "delete":
+		if o.emptyVer {
+			return fmt.Sprintf("delete %s/%s?versionId=", o.b, o.k)
+		}
+		if o.nullVer {
+			return fmt.Sprintf("delete %s/%s?versionId=null", o.b, o.k)
+		}
 		return fmt.Sprintf("delete %s/%s", o.b, o.k)
 	case "multi":
 		return fmt.Sprintf("multi-delete %s %v quiet=%v", o.b, o.keys, o.quiet)
@@ -90,6 +97,9 @@ func c02BuildOps(u *c02Universe) []engine.Op {
 				ops = append(ops, c02Op{kind: "delete", b: b, k: k})
 			}
 		}
+		// the way some SDKs delete from an unversioned bucket: DELETE ?versionId=null
+		ops = append(ops, c02Op{kind: "delete", b: u.buckets[0], k: u.keys[0], nullVer: true})
+		ops = append(ops, c02Op{kind: "delete", b: u.buckets[0], k: u.keys[len(u.keys)-1], nullVer: true, emptyVer: true})
 	}
 	if want("delbucket") {
 		for _, b := range u.buckets {
@@ -263,7 +273,14 @@ func (s *c02Sys) Apply(op engine.Op) (string, *engine.Violation) {
 		}
 		return respSig(r), nil
 	case "delete":
-		r := s.w.Do(drv.Req{Method: "DELETE", Path: "/" + o.b + "/" + o.k})
+		q := ""
+		if o.nullVer {
+			q = "versionId=null"
+			if o.emptyVer {
+				q = "versionId="
+			}
+		}
+		r := s.w.Do(drv.Req{Method: "DELETE", Path: "/" + o.b + "/" + o.k, Query: q})
 		e := s.m.Delete(o.b, o.k)
 		if !matchExp(r, e) {
 			return bad("status", r, e, "")
